@@ -1,6 +1,6 @@
 /-
   C52 — bn256 (/repo/bn256): field tower, G1 (curve.go), G2 (twist.go), Marshal / Unmarshal
-  (bn256.go, the code AFTER the fix a6d9c31: coordinates must be < p).
+  (bn256.go, the code AFTER the fixes: coordinates must be < p; negative scalars).
 
   The Go code works on `*big.Int` and reduces mod p only at certain points; the model is a
   transcription on `Int` that reduces at exactly the same points (`big.Int.Mod` is the Euclidean
@@ -158,11 +158,15 @@ def invert (a : GFp12) : GFp12 :=
 /-- `big.Int.BitLen` -/
 def bitLen (k : Int) : Nat := if k = 0 then 0 else k.natAbs.log2 + 1
 
-/-- `Exp` exactly as written: bits `BitLen(|k|)-1 … 0` of `power` (`big.Int.Bit`: two's complement
-    for negative values), square then conditionally multiply -/
-def expGo (a : GFp12) (k : Int) : GFp12 :=
+/-- the square-and-multiply loop of `Exp`: bits `BitLen(|k|)-1 … 0` of `power` (`big.Int.Bit`:
+    two's complement for negative values), square then conditionally multiply -/
+def expLoop (a : GFp12) (k : Int) : GFp12 :=
   ((List.range (bitLen k)).reverse.map (fun i => (k >>> i) % 2 == 1)).foldl
     (fun sum b => let t := sum.square; if b then t.mul a else t) one
+
+/-- `Exp` (after the negative-scalar fix): a negative power is `(a^|k|)^-1`; the loop only sees `k ≥ 0` -/
+def exp (a : GFp12) (k : Int) : GFp12 :=
+  if k < 0 then (expLoop a (-k)).invert else expLoop a k
 end GFp12
 
 /-! ## G1: y² = x³ + 3 over GF(p), Jacobian coordinates (curve.go) -/
@@ -246,8 +250,8 @@ def add (a b : CurvePoint) : CurvePoint :=
       let cz := (t4 * h) % p
       ⟨cx, cy, cz, 0⟩
 
-/-- `Negative`: y ↦ −y (not reduced), t := 0 -/
-def neg (a : CurvePoint) : CurvePoint := ⟨a.x, -a.y, a.z, 0⟩
+/-- `Negative`: y ↦ −y (not reduced); z and the cached t are kept -/
+def neg (a : CurvePoint) : CurvePoint := ⟨a.x, -a.y, a.z, a.t⟩
 
 /-- one round of the `Mul` loop for one scalar bit -/
 def mulStep (a : CurvePoint) (sum : CurvePoint) (bit : Bool) : CurvePoint :=
@@ -259,8 +263,12 @@ def mulStep (a : CurvePoint) (sum : CurvePoint) (bit : Bool) : CurvePoint :=
 def goBits (k : Int) : List Bool :=
   (List.range (GFp12.bitLen k + 1)).reverse.map (fun i => (k >>> i) % 2 == 1)
 
-/-- `curvePoint.Mul` exactly as written (any `big.Int` scalar) -/
-def mulGo (a : CurvePoint) (k : Int) : CurvePoint := (goBits k).foldl (mulStep a) infinity0
+/-- the double-and-add loop of `curvePoint.Mul` -/
+def mulLoop (a : CurvePoint) (k : Int) : CurvePoint := (goBits k).foldl (mulStep a) infinity0
+
+/-- `curvePoint.Mul` (after the negative-scalar fix): `scalar.Sign() < 0` ⇒ `Negative(Mul(a, −scalar))` -/
+def mul (a : CurvePoint) (k : Int) : CurvePoint :=
+  if k < 0 then (mulLoop a (-k)).neg else mulLoop a k
 
 def makeAffine (c : CurvePoint) : CurvePoint :=
   if c.z.natAbs == 1 then c
@@ -361,14 +369,20 @@ def add (a b : TwistPoint) : TwistPoint :=
       let cz := t4.mul h
       ⟨cx, cy, cz, .zero⟩
 
-def neg (a : TwistPoint) : TwistPoint := ⟨a.x, GFp2.zero.sub a.y, a.z, .zero⟩
+/-- `Negative`: y := 0 − y; z and the cached t = z² are kept (so a negated affine point stays
+    usable by the pairing, which reads t without recomputing it when z = 1) -/
+def neg (a : TwistPoint) : TwistPoint := ⟨a.x, GFp2.zero.sub a.y, a.z, a.t⟩
 
 def mulStep (a : TwistPoint) (sum : TwistPoint) (bit : Bool) : TwistPoint :=
   let t := double sum
   if bit then add t a else t
 
-def mulGo (a : TwistPoint) (k : Int) : TwistPoint :=
+def mulLoop (a : TwistPoint) (k : Int) : TwistPoint :=
   (CurvePoint.goBits k).foldl (mulStep a) infinity0
+
+/-- `twistPoint.Mul` (after the negative-scalar fix) -/
+def mul (a : TwistPoint) (k : Int) : TwistPoint :=
+  if k < 0 then (mulLoop a (-k)).neg else mulLoop a k
 
 def makeAffine (c : TwistPoint) : TwistPoint :=
   if c.z.isOne then c
